@@ -33,9 +33,7 @@ type Machine struct {
 	funcsSeen   map[string]bool
 	stubsSeen   map[string]bool
 
-	tasks   []*task
-	curTask *task
-	clock   int64
+	clock int64
 
 	eng *Engine
 }
